@@ -468,7 +468,33 @@ fn mutate(rng: &mut Rng, env: &[Decl], g: &GTy, v: &V) -> V {
     }
 }
 
+/// Two distinct values whose renderings can only differ if String's show escapes: the text
+/// `") ("` is moved from the end of one string argument to the start of the next.
+fn gen_quote_shift(rng: &mut Rng, hist: &mut Hist) -> DCase {
+    let name = rng.pick(&["P", "Pair", "K2"]).to_string();
+    let mut tys = vec![Ty::Str, Ty::Str];
+    let extra = rng.below(2) as usize;
+    for _ in 0..extra {
+        tys.push(Ty::Int);
+    }
+    let env = vec![Decl { param: false, ctors: vec![(name, tys), ("Q".to_string(), vec![])] }];
+    let w = |rng: &mut Rng| -> String { (0..rng.below(3)).map(|_| *rng.pick(&['a', 'b', 'é', ' '])).collect() };
+    let (u, v, t) = (w(rng), w(rng), w(rng));
+    let mut xa = vec![V::Str(format!("{}\") (\"{}", u, v)), V::Str(t.clone())];
+    let mut ya = vec![V::Str(u), V::Str(format!("{}\") (\"{}", v, t))];
+    for _ in 0..extra {
+        let i = gen_int(rng);
+        xa.push(V::Int(i));
+        ya.push(V::Int(i));
+    }
+    hist.add("derive:quote-shift");
+    DCase { env, g: GTy::Data(0, Box::new(GTy::Int)), x: V::Con(0, xa), y: V::Con(0, ya) }
+}
+
 pub fn gen_case(rng: &mut Rng, hist: &mut Hist) -> DCase {
+    if rng.chance(1, 20) {
+        return gen_quote_shift(rng, hist);
+    }
     let ndecl = 1 + rng.below(3) as usize;
     let mut env: Vec<Decl> = vec![];
     // constructor names unique over the program; some are prefixes of others
